@@ -5342,7 +5342,13 @@ class Parameterized(metaclass=ParameterizedMetaclass):
                             watcher_args[0] = self
                         fn = watcher.fn
                         if hasattr(fn, '_watcher_name'):
-                            watcher_args[2] = _m_caller(self, fn._watcher_name)
+                            # Method caller created by depends(watch=True). copy/pickle have
+                            # already bound it to the copy of the object owning the method
+                            # (this object or a parent object): keep it, so that it also stays
+                            # equal to the watcher recorded in dynamic_watchers.
+                            function = getattr(fn, 'keywords', {}).get('function')
+                            if get_method_owner(function) is None:
+                                watcher_args[2] = _m_caller(self, fn._watcher_name)
                         elif get_method_owner(fn) is watcher.inst:
                             watcher_args[2] = getattr(self, fn.__name__)
                         new_watchers.append(Watcher(*watcher_args))
